@@ -7,9 +7,14 @@
   simply playing with settled volume / fade / route parameters and no spatial data, main and send volumes
   settled — plus a static environment (`EnvOps.Static`: no clock, modulator or listener moves).
   Sounds and effects are arbitrary components that are chunk-homomorphic (`Comps.ChunkHom`: rendering
-  `a + b` frames = rendering `a` then `b`, the per-frame state advance every kira sound and effect has).
+  `a + b` frames = rendering `a` then `b`, the per-frame state advance every kira sound and effect has) —
+  or, in the `_on` forms, chunk-homomorphic relative to state invariants preserved by `process` and for slices
+  of at most the internal buffer size (`Comps.ChunkHomOn`), which is what kira's REAL static sound and eight
+  effects are proved to satisfy: `Props/C11_real.lean` (imported below) instantiates the `_on` forms with the
+  whole-system model `Model/System.lean` (`C11_real_scene_partition_invariant`).
 -/
-import KiraModel.Proofs.IdleLemmas
+import KiraModel.Proofs.SimLemmas
+import KiraModel.Props.C11_real
 
 set_option linter.unusedSectionVars false
 
@@ -18,20 +23,67 @@ namespace K
 section
 variable {S E P X : Type} (C : Comps ℝ S E P) (V : EnvOps ℝ X)
 
-/-- **Chunk homomorphism, lifted through the whole mixer.**  For a clean, settled mixer and
-    chunk-homomorphic sounds / effects, `Mixer::process` on a chunk of `a + b ≤ ibs` frames yields
-    exactly the frames of a chunk of `a` followed by a chunk of `b` frames, and the same final mixer —
-    tracks (by induction on the tree), sends (the routed signal is split the same way), main track. -/
-theorem C11_chunk_homomorphism (hC : C.LenPres) (dt : ℝ) (hH : C.ChunkHom dt) (info : Info ℝ) (ibs : Nat)
-    (m : Mixer ℝ S E P) (hm : Mixer.Clean ibs m) (hs : Mixer.Settled m) (a b : Nat) (hab : a + b ≤ ibs) :
+/-! ### invariant-relative forms
+
+`Comps.ChunkHomOn IS IE B dt` (Proofs/ChunkLemmas.lean): the components are chunk-homomorphic on the sound
+states satisfying `IS` and the effect states satisfying `IE`, for slices of at most `B` frames, and `process`
+preserves `IS`, `IE` — what kira's real sounds and effects satisfy (Props/C11_real.lean).  `Mixer.CompsOk IS IE m`:
+every sound / effect the mixer processes satisfies its invariant.  `Renderer.QuietOn`: quiet + `CompsOk` + an
+invariant `IX` of the environment on which it is static (`EnvOps.StaticOn`).  The unconditional theorems below
+are the special case `IS = IE = IX = fun _ => True`. -/
+
+/-- **Chunk homomorphism, lifted through the whole mixer (invariant-relative).**  For a clean, settled mixer
+    whose components satisfy `IS` / `IE` and are chunk-homomorphic there for slices of at most `B ≥ ibs` frames,
+    `Mixer::process` on a chunk of `a + b ≤ ibs` frames yields exactly the frames of a chunk of `a` followed by a
+    chunk of `b` frames and the same final mixer, whose components satisfy `IS` / `IE` again. -/
+theorem C11_chunk_homomorphism_on {IS : S → Prop} {IE : E → Prop} {B : Nat}
+    (hC : C.LenPres) (dt : ℝ) (hH : C.ChunkHomOn IS IE B dt) (info : Info ℝ) (ibs : Nat) (hB : ibs ≤ B)
+    (m : Mixer ℝ S E P) (hm : Mixer.Clean ibs m) (hs : Mixer.Settled m) (hc : Mixer.CompsOk IS IE m)
+    (a b : Nat) (hab : a + b ≤ ibs) :
     m.process C (zeros (a + b)) dt info
       = (((m.process C (zeros a) dt info).1.process C (zeros b) dt info).1,
-         (m.process C (zeros a) dt info).2 ++ ((m.process C (zeros a) dt info).1.process C (zeros b) dt info).2) := by
+         (m.process C (zeros a) dt info).2 ++ ((m.process C (zeros a) dt info).1.process C (zeros b) dt info).2)
+      ∧ Mixer.Settled (m.process C (zeros a) dt info).1 ∧ Mixer.CompsOk IS IE (m.process C (zeros a) dt info).1 := by
   obtain ⟨r1, _, _⟩ := Mixer.refines C hC ibs m hm (a + b) hab dt info
   obtain ⟨r2, _, c2⟩ := Mixer.refines C hC ibs m hm a (by omega) dt info
   obtain ⟨r3, _, _⟩ := Mixer.refines C hC ibs (Mixer.spec C m a dt info).1 c2 b (by omega) dt info
   rw [r1, r2, r3]
-  exact (Mixer.spec_hom C hC dt hH info ibs m hm hs a b hab).1
+  exact Mixer.spec_hom_on C hC dt hH info ibs hB m hm hs hc a b hab
+
+/-- **Chunk homomorphism, lifted through the whole mixer.**  For a clean, settled mixer and
+    chunk-homomorphic sounds / effects, `Mixer::process` on a chunk of `a + b ≤ ibs` frames yields
+    exactly the frames of a chunk of `a` followed by a chunk of `b` frames, and the same final mixer —
+    tracks (by induction on the tree), sends (the routed signal is split the same way), main track.
+    (The special case of `C11_chunk_homomorphism_on` with trivial invariants.) -/
+theorem C11_chunk_homomorphism (hC : C.LenPres) (dt : ℝ) (hH : C.ChunkHom dt) (info : Info ℝ) (ibs : Nat)
+    (m : Mixer ℝ S E P) (hm : Mixer.Clean ibs m) (hs : Mixer.Settled m) (a b : Nat) (hab : a + b ≤ ibs) :
+    m.process C (zeros (a + b)) dt info
+      = (((m.process C (zeros a) dt info).1.process C (zeros b) dt info).1,
+         (m.process C (zeros a) dt info).2 ++ ((m.process C (zeros a) dt info).1.process C (zeros b) dt info).2) :=
+  (C11_chunk_homomorphism_on C hC dt (Comps.ChunkHom.on C hH ibs) info ibs (Nat.le_refl _) m hm hs
+    (Mixer.compsOk_true m) a b hab).1
+
+/-- the same for one sub-track (any depth), invariant-relative: output and final subtree of `a + b` frames =
+    `a` then `b`; `FeedRel` says the send tracks are handed the same routed signal, split the same way -/
+theorem C11_chunk_homomorphism_track_on {IS : S → Prop} {IE : E → Prop} {B : Nat}
+    (hC : C.LenPres) (dt : ℝ) (hH : C.ChunkHomOn IS IE B dt) (ibs : Nat) (hB : ibs ≤ B)
+    (t : Trk ℝ S E P) (ht : Trk.Clean ibs t) (hs : Trk.Settled t) (hc : Trk.CompsOk IS IE t)
+    (pinfo : Info ℝ) (a b : Nat) (hab : a + b ≤ ibs)
+    (sab sa sb : List (SendTrk ℝ E)) (hrel : FeedRel a b sab sa sb) :
+    (Trk.process C dt pinfo t (zeros (a + b)) sab).1
+        = (Trk.process C dt pinfo (Trk.process C dt pinfo t (zeros a) sa).1 (zeros b) sb).1
+      ∧ (Trk.process C dt pinfo t (zeros (a + b)) sab).2.1
+        = (Trk.process C dt pinfo t (zeros a) sa).2.1
+          ++ (Trk.process C dt pinfo (Trk.process C dt pinfo t (zeros a) sa).1 (zeros b) sb).2.1
+      ∧ FeedRel a b (Trk.process C dt pinfo t (zeros (a + b)) sab).2.2 (Trk.process C dt pinfo t (zeros a) sa).2.2
+          (Trk.process C dt pinfo (Trk.process C dt pinfo t (zeros a) sa).1 (zeros b) sb).2.2
+      ∧ Trk.CompsOk IS IE (Trk.process C dt pinfo t (zeros a) sa).1 := by
+  obtain ⟨r1, _, _⟩ := Trk.refines C hC ibs t ht dt pinfo (a + b) hab sab
+  obtain ⟨r2, _, c2⟩ := Trk.refines C hC ibs t ht dt pinfo a (by omega) sa
+  obtain ⟨r3, _, _⟩ := Trk.refines C hC ibs (Trk.spec C dt pinfo a t sa).1 c2 dt pinfo b (by omega) sb
+  rw [r1, r2, r3]
+  obtain ⟨h1, h2, h3, _, _, _, h7⟩ := Trk.spec_hom_on C hC dt hH t hs hc pinfo a b (by omega) sab sa sb hrel
+  exact ⟨h1, h2, h3, h7⟩
 
 /-- the same for one sub-track (any depth): output and final subtree of `a + b` frames = `a` then `b`;
     `FeedRel` says the send tracks are handed the same routed signal, split the same way -/
@@ -45,46 +97,95 @@ theorem C11_chunk_homomorphism_track (hC : C.LenPres) (dt : ℝ) (hH : C.ChunkHo
           ++ (Trk.process C dt pinfo (Trk.process C dt pinfo t (zeros a) sa).1 (zeros b) sb).2.1
       ∧ FeedRel a b (Trk.process C dt pinfo t (zeros (a + b)) sab).2.2 (Trk.process C dt pinfo t (zeros a) sa).2.2
           (Trk.process C dt pinfo (Trk.process C dt pinfo t (zeros a) sa).1 (zeros b) sb).2.2 := by
-  obtain ⟨r1, _, _⟩ := Trk.refines C hC ibs t ht dt pinfo (a + b) hab sab
-  obtain ⟨r2, _, c2⟩ := Trk.refines C hC ibs t ht dt pinfo a (by omega) sa
-  obtain ⟨r3, _, _⟩ := Trk.refines C hC ibs (Trk.spec C dt pinfo a t sa).1 c2 dt pinfo b (by omega) sb
-  rw [r1, r2, r3]
-  obtain ⟨h1, h2, h3, _⟩ := Trk.spec_hom C hC dt hH t hs pinfo a b sab sa sb hrel
+  obtain ⟨h1, h2, h3, _⟩ := C11_chunk_homomorphism_track_on C hC dt (Comps.ChunkHom.on C hH ibs) ibs (Nat.le_refl _) t ht hs
+    (Trk.compsOk_true t) pinfo a b hab sab sa sb hrel
   exact ⟨h1, h2, h3⟩
+
+/-- **Partition and buffer-size invariance of the rendered audio (invariant-relative).**  Take a renderer `r`
+    that is quiet on component invariants `IS`, `IE` (chunk-homomorphic there for slices ≤ `r.ibs`) and an
+    environment invariant `IX` (static there).  The same scene built with another internal buffer size `k ≥ 1` is
+    `Renderer.resize k (Renderer.mapComps fs fe r)`: scratch buffers of `k` frames, and every component mapped by
+    `fs` / `fe` (for kira's effects: the delays' own scratch buffers resized), where the mapped components satisfy
+    invariants `IS2`, `IE2` on which they are chunk-homomorphic for slices ≤ `k`, and mapping commutes with
+    processing a single frame (`Comps.SimOn … 1`).  Then any two callback sequences `cbs1`, `cbs2` with the same
+    total render the identical device sample stream, and the final states correspond (`resize` ∘ `mapComps`). -/
+theorem C11_render_partition_invariant_on {IS IS2 : S → Prop} {IE IE2 : E → Prop} {IX : X → Prop}
+    (hC : C.LenPres) (hV : V.StaticOn IX)
+    (r : Renderer ℝ S E P X) (hibs : 1 ≤ r.ibs) (k : Nat) (hk : 1 ≤ k)
+    (hH : C.ChunkHomOn IS IE r.ibs r.dt) (hq : r.QuietOn IS IE IX r.ibs r.dt)
+    (fs : S → S) (fe : E → E) (hH2 : C.ChunkHomOn IS2 IE2 k r.dt)
+    (hfs : ∀ s, IS s → IS2 (fs s)) (hfe : ∀ e, IE e → IE2 (fe e))
+    (hsim : Comps.SimOn C C fs fe IS IE 1 r.dt)
+    (ch : Nat) (cbs1 cbs2 : List Nat) (hsum : cbs1.sum = cbs2.sum) :
+    (Renderer.runCallbacks C V ch (Renderer.resize k (Renderer.mapComps fs fe r)) cbs2).2
+        = (Renderer.runCallbacks C V ch r cbs1).2
+      ∧ (Renderer.runCallbacks C V ch (Renderer.resize k (Renderer.mapComps fs fe r)) cbs2).1
+          = Renderer.resize k (Renderer.mapComps fs fe (Renderer.runCallbacks C V ch r cbs1).1) :=
+  Renderer.runCallbacks_partition_on C V hC hV r hibs k hk hH hq fs fe hH2 hfs hfe hsim ch cbs1 cbs2 hsum
 
 /-- **Partition and buffer-size invariance of the rendered audio.**  Take a quiet renderer `r` (internal
     buffer size `r.ibs ≥ 1`) and the same renderer built with any other internal buffer size `k ≥ 1`
     (`Renderer.resize k r`).  Render any two sequences of device callbacks `cbs1`, `cbs2` (each callback =
     one `Renderer::process` call of that many frames, cut into chunks of at most the respective buffer
     size) with the same total number of frames: the two device sample streams are identical, and the two
-    renderers end in the same state (up to the capacity of their scratch buffers). -/
+    renderers end in the same state (up to the capacity of their scratch buffers).
+    (The special case of `C11_render_partition_invariant_on` with trivial invariants and identity maps.) -/
 theorem C11_render_partition_invariant (hC : C.LenPres) (hH : ∀ dt, C.ChunkHom dt) (hV : V.Static)
     (r : Renderer ℝ S E P X) (hq : r.Quiet) (hibs : 1 ≤ r.ibs) (k : Nat) (hk : 1 ≤ k) (ch : Nat)
     (cbs1 cbs2 : List Nat) (hsum : cbs1.sum = cbs2.sum) :
     (Renderer.runCallbacks C V ch (Renderer.resize k r) cbs2).2 = (Renderer.runCallbacks C V ch r cbs1).2
       ∧ (Renderer.runCallbacks C V ch (Renderer.resize k r) cbs2).1
           = Renderer.resize k (Renderer.runCallbacks C V ch r cbs1).1 := by
-  have hq' := Renderer.resize_quiet k r hq
-  have hibs' : (Renderer.resize k r).ibs = k := rfl
-  -- both runs are chunk loops; both chunk lists reduce to single-frame chunks
-  rw [Renderer.runCallbacks_spec C V hC hH hV ch cbs1 r hq,
-    Renderer.runCallbacks_spec C V hC hH hV ch cbs2 _ hq', hibs']
-  rw [Renderer.specChunks_ones C V hC hH hV ch _ r hq (callbackChunks_bound r.ibs hibs cbs1),
-    Renderer.specChunks_ones C V hC hH hV ch _ _ hq' (by rw [hibs']; exact callbackChunks_bound k hk cbs2),
-    callbackChunks_sum r.ibs hibs, callbackChunks_sum k hk, hsum]
-  -- the same single-frame chunks on the two capacities
-  rw [Renderer.specChunks_resize C V hC k ch _ r hq.1
-    (fun n hn => by rw [List.eq_of_mem_replicate hn]; exact ⟨hibs, hk⟩)]
-  exact ⟨rfl, rfl⟩
+  have h := C11_render_partition_invariant_on C V (IS := fun _ => True) (IS2 := fun _ => True) (IE := fun _ => True)
+    (IE2 := fun _ => True) (IX := fun _ => True) hC (EnvOps.Static.on V hV) r hibs k hk
+    (Comps.ChunkHom.on C (hH r.dt) r.ibs) (Renderer.Quiet.on r hq) (fun s => s) (fun e => e)
+    (Comps.ChunkHom.on C (hH r.dt) k) (fun _ _ => trivial) (fun _ _ => trivial)
+    ⟨fun _ _ _ _ _ => rfl, fun _ _ _ _ _ => trivial, fun _ _ _ _ _ => rfl, fun _ _ _ _ _ => trivial, rfl, rfl⟩
+    ch cbs1 cbs2 hsum
+  simpa only [Renderer.mapComps_id] using h
+
+/-- same internal buffer size, two callback partitions, invariant-relative -/
+theorem C11_callback_partition_invariant_on {IS : S → Prop} {IE : E → Prop} {IX : X → Prop}
+    (hC : C.LenPres) (hV : V.StaticOn IX)
+    (r : Renderer ℝ S E P X) (hibs : 1 ≤ r.ibs)
+    (hH : C.ChunkHomOn IS IE r.ibs r.dt) (hq : r.QuietOn IS IE IX r.ibs r.dt)
+    (ch : Nat) (cbs1 cbs2 : List Nat) (hsum : cbs1.sum = cbs2.sum) :
+    Renderer.runCallbacks C V ch r cbs1 = Renderer.runCallbacks C V ch r cbs2 := by
+  rw [(Renderer.runCallbacks_spec_clean C V hC ch cbs1 r hq.quiet.1).1,
+    (Renderer.runCallbacks_spec_clean C V hC ch cbs2 r hq.quiet.1).1]
+  exact Renderer.specChunks_partition_on C V hC hH hV ch r hq _ _ (callbackChunks_bound r.ibs hibs cbs1)
+    (callbackChunks_bound r.ibs hibs cbs2) (by rw [callbackChunks_sum r.ibs hibs, callbackChunks_sum r.ibs hibs, hsum])
 
 /-- same internal buffer size, two callback partitions (the special case `k = r.ibs` without resizing) -/
 theorem C11_callback_partition_invariant (hC : C.LenPres) (hH : ∀ dt, C.ChunkHom dt) (hV : V.Static)
     (r : Renderer ℝ S E P X) (hq : r.Quiet) (hibs : 1 ≤ r.ibs) (ch : Nat)
     (cbs1 cbs2 : List Nat) (hsum : cbs1.sum = cbs2.sum) :
-    Renderer.runCallbacks C V ch r cbs1 = Renderer.runCallbacks C V ch r cbs2 := by
-  rw [Renderer.runCallbacks_spec C V hC hH hV ch cbs1 r hq, Renderer.runCallbacks_spec C V hC hH hV ch cbs2 r hq]
-  exact Renderer.specChunks_partition C V hC hH hV ch r hq _ _ (callbackChunks_bound r.ibs hibs cbs1)
-    (callbackChunks_bound r.ibs hibs cbs2) (by rw [callbackChunks_sum r.ibs hibs, callbackChunks_sum r.ibs hibs, hsum])
+    Renderer.runCallbacks C V ch r cbs1 = Renderer.runCallbacks C V ch r cbs2 :=
+  C11_callback_partition_invariant_on C V hC (EnvOps.Static.on V hV) r hibs (Comps.ChunkHom.on C (hH r.dt) r.ibs)
+    (Renderer.Quiet.on r hq) ch cbs1 cbs2 hsum
+
+/-- **Whole device callbacks** (`on_start_processing` + `process`), no commands in flight, invariant-relative:
+    `Mixer.Idle` (nothing pending anywhere), `on_start_processing` neutral on the component invariants and on the
+    environment invariant, no sound satisfying `IS` finishes (`Comps.StartNeutralOn`): `on_start_processing`
+    changes nothing, so the same invariance holds for whole device callbacks. -/
+theorem C11_device_callbacks_partition_invariant_on {IS IS2 : S → Prop} {IE IE2 : E → Prop} {IX : X → Prop}
+    (hC : C.LenPres) (hV : V.StaticOn IX) (hVs : ∀ e, IX e → V.start e = e)
+    (r : Renderer ℝ S E P X) (hibs : 1 ≤ r.ibs) (k : Nat) (hk : 1 ≤ k)
+    (hH : C.ChunkHomOn IS IE r.ibs r.dt) (hq : r.QuietOn IS IE IX r.ibs r.dt) (hi : Mixer.Idle r.mixer)
+    (hN : C.StartNeutralOn IS IE)
+    (fs : S → S) (fe : E → E) (hH2 : C.ChunkHomOn IS2 IE2 k r.dt) (hN2 : C.StartNeutralOn IS2 IE2)
+    (hfs : ∀ s, IS s → IS2 (fs s)) (hfe : ∀ e, IE e → IE2 (fe e))
+    (hsim : Comps.SimOn C C fs fe IS IE 1 r.dt)
+    (ch : Nat) (cbs1 cbs2 : List Nat) (hsum : cbs1.sum = cbs2.sum) :
+    (Renderer.runDeviceCallbacks C V ch (Renderer.resize k (Renderer.mapComps fs fe r)) cbs2).2
+      = (Renderer.runDeviceCallbacks C V ch r cbs1).2 := by
+  have hq2 : (Renderer.resize k (Renderer.mapComps fs fe r)).QuietOn IS2 IE2 IX k r.dt :=
+    ⟨Renderer.resize_quiet k _ (Renderer.mapComps_quiet fs fe r hq.quiet),
+      Mixer.resize_compsOk k _ (Mixer.mapComps_compsOk fs fe hfs hfe r.mixer hq.comps), hq.env, Nat.le_refl _, rfl⟩
+  rw [Renderer.runDeviceCallbacks_eq_on C V hC hH hV hVs hN ch cbs1 r hq hi,
+    Renderer.runDeviceCallbacks_eq_on C V hC hH2 hV hVs hN2 ch cbs2 _ hq2
+      (Mixer.resize_idle k _ (Mixer.mapComps_idle fs fe r.mixer hi))]
+  exact (C11_render_partition_invariant_on C V hC hV r hibs k hk hH hq fs fe hH2 hfs hfe hsim ch cbs1 cbs2 hsum).1
 
 /-- **Whole device callbacks** (`on_start_processing` + `process`), no commands in flight.  If in addition
     nothing is pending anywhere (`Mixer.Idle`: no command written, no resource in a ring, no handle dropped) and
